@@ -14,7 +14,8 @@ LEVEL = 'other'
 # ------------------------------------------------------------------------------------------------
 # shared helpers (C14, C15, C16)
 
-def make_setup(npts, degrees, uniform_flag=True, rrange=None, vrange=None, period=(False, True, True, False), vbreaks=None, **consts):
+def make_setup(npts, degrees, uniform_flag=True, rrange=None, vrange=None, period=(False, True, True, False), vbreaks=None, rbreaks=None,
+               **consts):
     """splines / eta grids exactly as pygyro.initialisation.setups builds them (but any sizes, degrees, flag)"""
     common.use_repo()
     from pygyro.splines.splines import make_knots, BSplines
@@ -31,6 +32,9 @@ def make_setup(npts, degrees, uniform_flag=True, rrange=None, vrange=None, perio
     period = list(period)[:nd]
     nkts = [n + 1 + d * (int(p) - 1) for n, d, p in zip(npts, degrees, period)]
     breaks = [np.linspace(*l, num=n) for l, n in zip(domain, nkts)]
+    if rbreaks is not None:
+        # the caller's own radial break points (graded grids): a function nkts, lo, hi -> increasing array with the end points lo, hi
+        breaks[0] = np.asarray(rbreaks(nkts[0], c.rMin, c.rMax), dtype=float)
     if vbreaks is not None and nd == 4:
         # the caller's own break points along v (graded / asymmetric grids): a function nkts -> increasing array on [vMin, vMax]
         breaks[3] = np.asarray(vbreaks(nkts[3], c.vMin, c.vMax), dtype=float)
@@ -188,8 +192,8 @@ def gauss_setup(rs_breaks, qdeg):
     n = qdeg // 2 + 1
     pts, wts = leggauss(n)
     br = np.asarray(rs_breaks, float)
-    mult = (br[1] - br[0]) * 0.5
-    ev = ((br[1:] + br[:-1]) * 0.5)[:, None] + pts[None, :] * mult
+    mult = (br[1:] - br[:-1]) * 0.5          # one half-width per cell (the cells may have different lengths)
+    ev = ((br[1:] + br[:-1]) * 0.5)[:, None] + pts[None, :] * mult[:, None]
     return pts, wts, mult, ev
 
 
@@ -199,7 +203,7 @@ def solver_request(rs, qdeg, fns, extra):
     pts, wts, mult, ev = gauss_setup(rs.breaks, qdeg)
     tabs = {k: [[common.rat(float(f(float(x)))) for x in row] for row in ev] for k, f in zip('ABCDE', fns)}
     req = {'op': 'solver', 'knots': [str(k) for k in kn], 'degree': int(rs.degree), 'ncells': int(rs.ncells),
-           'weights': common.rats(wts), 'mult': common.rat(mult), 'evalpts': [common.rats(r) for r in ev]}
+           'weights': common.rats(wts), 'mult': common.rats(mult), 'evalpts': [common.rats(r) for r in ev]}
     req.update(tabs)
     req.update(extra)
     return req, ev
@@ -315,12 +319,14 @@ def build_case(chk, rng, it):
     nprocs = rng.choice(grids)
     return {'d': d, 'ncells': ncells, 'nr': nr, 'uniform_flag': uniform_flag, 'N': N, 'nz': nz, 'qdeg': qdeg,
             'coefs': coefs, 'lneu': lneu, 'uneu': uneu, 'rrange': rrange, 'func_rhs': func_rhs,
-            'manufactured': manufactured, 'nprocs': list(nprocs), 'seed': rng.randrange(1 << 30), 'style': style}
+            'manufactured': manufactured, 'nprocs': list(nprocs), 'seed': rng.randrange(1 << 30), 'style': style,
+            # radial break points graded towards one end on a third of the cases (cells of different lengths)
+            'graded_r': ncells >= 2 and it % 3 == 1}
 
 
 def case_desc(cs):
     out = {k: cs[k] for k in ('d', 'ncells', 'nr', 'uniform_flag', 'N', 'nz', 'qdeg', 'lneu', 'uneu', 'rrange',
-                              'func_rhs', 'manufactured', 'nprocs', 'seed')}
+                              'func_rhs', 'manufactured', 'nprocs', 'seed', 'graded_r')}
     out['coefs'] = {k: v[0] for k, v in cs['coefs'].items()}
     return out
 
@@ -457,7 +463,16 @@ def one_case(chk, drv, it, stats):
     cs = build_case(chk, rng, it)
     desc = case_desc(cs)
     d, nr, N, nz = cs['d'], cs['nr'], cs['N'], cs['nz']
-    S = make_setup([nr], [d], cs['uniform_flag'], rrange=cs['rrange'], period=(False,))
+    rbreaks = None
+    if cs.get('graded_r'):
+        def rbreaks(n, lo, hi):
+            gr = np.random.RandomState(cs['seed'] ^ 0x5bd1)
+            w = (1.0 + 0.5 * np.arange(n - 1)) * gr.uniform(0.7, 1.3, size=n - 1)
+            x = np.concatenate([[0.0], np.cumsum(w)])
+            out_ = lo + (hi - lo) * x / x[-1]
+            out_[0], out_[-1] = lo, hi
+            return out_
+    S = make_setup([nr], [d], cs['uniform_flag'] and not cs.get('graded_r'), rrange=cs['rrange'], period=(False,), rbreaks=rbreaks)
     # theta / z grids are only labels here
     S['eta'] = [S['eta'][0], np.arange(N, dtype=float), np.arange(nz, dtype=float)]
     S['bsplines'] = [S['bsplines'][0], None, None]
@@ -739,7 +754,7 @@ def run(chk):
                        'and the meaning of every assembled entry are Lean theorems; exactness of the Gauss sums for piecewise '
                        'polynomials, the third-party solves and the spline evaluation are covered by the rational model '
                        '(exact Galerkin residual of the returned phi) and by an independent dense numpy assembly')
-    chk.proof_side(build=not getattr(chk, 'no_build', False))
+    chk.proof_side(build=not getattr(chk, 'no_build', False), extra_props=('C14Extra',))
     common.use_repo()
     drv = common.LeanDriver('C14.lean')
     stats = {'matrix': 0.0, 'residual': 0.0, 'oracle': 0.0, 'manufactured': 0.0}
